@@ -111,9 +111,10 @@ class Owner:
         self.events.append(parsed)
 
 
-def response_for(r):
+def response_for(r, code=200):
     body = b'{"request":%d}' % r
-    return b"HTTP/1.1 200 OK\r\nContent-Type: application/hap+json\r\nContent-Length: %d\r\n\r\n%s" % (len(body), body)
+    return b"HTTP/1.1 %d %s\r\nContent-Type: application/hap+json\r\nContent-Length: %d\r\n\r\n%s" % (
+        code, b"OK" if code == 200 else b"Connection Authorization Required", len(body), body)
 
 
 def event_msg(n):
@@ -192,7 +193,7 @@ def caller_unit(M, n_callers, depth, limits, with_unsolicited):
     def h(ex):
         limit = ex.choice("concurrency_limit", limits)
         W = World(M, limit)
-        callers, cancelled, timed_out, timers = [], set(), set(), {}
+        callers, cancelled, timed_out, timers, codes, fired = [], set(), set(), {}, {}, set()
         closed_at_write = None
 
         def track_timer(k, before):
@@ -227,7 +228,10 @@ def caller_unit(M, n_callers, depth, limits, with_unsolicited):
                 step(k)
             elif ev == "answer":
                 ex.assume(outstanding > 0 and not W.tr.closed)
-                W.append("response", W.request_ids()[W.answered], response_for(W.request_ids()[W.answered]))
+                code = ex.choice("status%d" % i, [200, 470])
+                rid = W.request_ids()[W.answered]
+                codes[rid] = code
+                W.append("response", rid, response_for(rid, code))
                 W.answered += 1
             elif ev == "unsolicited-response":
                 ex.assume(outstanding == 0 and not W.tr.closed and not W.wire)
@@ -263,10 +267,13 @@ def caller_unit(M, n_callers, depth, limits, with_unsolicited):
                     ex.tag("cancelled")
                 else:
                     t = timers.get(k)
-                    ex.assume(t is not None and not t.cancelled)
+                    ex.assume(t is not None and not t.cancelled and k not in fired)
+                    had_result = callers[k].awaiting.done()
                     t.cb(*t.args)  # the loop runs the call_at callback
-                    timed_out.add(k)
-                    ex.tag("timeout")
+                    fired.add(k)
+                    if not had_result:  # a timer that fires after the response has arrived changes nothing
+                        timed_out.add(k)
+                        ex.tag("timeout")
             if cb_exc is not None:
                 ex.require(ev == "unsolicited-response", "reading what the accessory sent does not make data_received raise (%s)" % type(cb_exc).__name__)
             written_before = len(W.tr.written)
@@ -287,6 +294,11 @@ def caller_unit(M, n_callers, depth, limits, with_unsolicited):
                     ex.tag("answered")
                     body = bytes(c.value.body) if c.value is not None else None
                     ok &= ex.require(body == b'{"request":%d}' % k, "a caller that returns holds the response the accessory sent for its own request")
+                    ok &= ex.require(codes.get(k) == 200 and c.value.code == 200, "a caller returns normally only for a non-error status")
+                elif c.state == "raised" and isinstance(c.value, M.HttpErrorResponse):
+                    ex.tag("http-error")
+                    ok &= ex.require(codes.get(k) == 470 and bytes(c.value.response.body) == b'{"request":%d}' % k,
+                                     "an HTTP error status is raised to the caller whose request it answers, with that response")
                 elif c.state == "cancelled":
                     ok &= ex.require(k in cancelled, "only a cancelled caller ends with CancelledError")
                 elif c.state == "raised":
@@ -328,7 +340,7 @@ def build(tier, mutate=None):
                           bounds={"callers": n, "events": depth, "concurrency limit": limits, "reads": "all pending bytes, or a prefix cut at 1 / 17 / half / all-but-one",
                                   "unsolicited response": "with nothing outstanding" if uns else "not in this unit",
                                   "wake-ups": "at once (either order), or after the next callback"},
-                          regions=["answered", "cancelled", "timeout", "peer-close"] + (["unsolicited"] if uns else []), diff_sample=400, max_paths=3000000))
+                          regions=["answered", "http-error", "cancelled", "timeout", "peer-close"] + (["unsolicited"] if uns else []), diff_sample=400, max_paths=3000000))
     return units
 
 
